@@ -4,7 +4,8 @@ pid=$1; name=${2:-$1}; wt=/var/tmp/seed-$name; out=/verif/seeded/$name
 cd $wt || exit 2
 [ -s patch.diff ] || git diff > patch.diff
 mkdir -p $out; cp patch.diff demo.py meta.json $out/ 2>/dev/null
-git checkout -q -- . ; git apply patch.diff || { echo "patch does not apply"; exit 2; }
+git checkout -q -- . ; base0=$(git rev-parse HEAD); git checkout -q --detach main 2>/dev/null; git apply --check patch.diff 2>/dev/null || { echo "patch does not apply on main HEAD; staying on its base"; git checkout -q --detach $base0; }
+git apply patch.diff || { echo "patch does not apply"; exit 2; }
 PYTHONPATH=$wt timeout 600 /venv/bin/python demo.py > $out/demo_with.log 2>&1; with=$?
 git apply -R patch.diff
 PYTHONPATH=$wt timeout 600 /venv/bin/python demo.py > $out/demo_without.log 2>&1; without=$?
